@@ -135,24 +135,10 @@ def _uni():
     return {l["id"]: l for l in u["leaves"]}
 
 
-def w_choice_winner_uninvolved(events, line):
-    """C08.WinningCaseApplied / C01.Converged fail only on choice members whose case becomes the winning one
-    because the former winner left, while the winning contribution belongs to an intent that is not part of the
-    transaction and whose paths the transaction does not touch (its entries are never loaded into the tree)."""
-    e = events[line - 1]
-    if e["ev"] != "txset" or e["ret"] != "ok" or e["dry"]:
-        return False
-    pre = pre_state(events, line)
-    if pre is None:
-        return False
-    leaves = _uni()
-    owners = {i["o"] for i in e["intents"]}
-    involved = {q[0] for i in e["intents"] for q in i["upd"]} | {x[2] for x in pre["intended"] if x[0] in owners}
-    post = e["post"]["intended"]
-    dev = fun(e["post"]["device"])
-    # effective (merged, choice resolved) value per leaf from the observed store
+def _choice_state(intended, leaves):
+    """best entry per leaf and winning (priority, case) per choice of an observed intended store"""
     best = {}
-    for o, p, l, v in post:
+    for o, p, l, v in intended:
         if l not in best or p < best[l][1]:
             best[l] = (o, p, v)
     win = {}
@@ -160,6 +146,24 @@ def w_choice_winner_uninvolved(events, line):
         ch = leaves.get(l, {}).get("choice")
         if ch and (ch not in win or p < win[ch][0]):
             win[ch] = (p, leaves[l]["case"])
+    return best, win
+
+
+def _choice_divergence(events, line):
+    """(bad, owners, involved, switched): the choice members of the winning case the device does not carry after the
+    TransactionSet at `line`, the owners / leaves the transaction involves, and whether the winning case of a
+    member's choice changed with this transaction; None when the event is not a successful TransactionSet"""
+    e = events[line - 1]
+    if e["ev"] != "txset" or e["ret"] != "ok" or e["dry"]:
+        return None
+    pre = pre_state(events, line)
+    if pre is None:
+        return None
+    leaves = _uni()
+    owners = {i["o"] for i in e["intents"]}
+    involved = {q[0] for i in e["intents"] for q in i["upd"]} | {x[2] for x in pre["intended"] if x[0] in owners}
+    dev = fun(e["post"]["device"])
+    best, win = _choice_state(e["post"]["intended"], leaves)
     bad = []
     for l, (o, p, v) in best.items():
         ch = leaves.get(l, {}).get("choice")
@@ -167,20 +171,46 @@ def w_choice_winner_uninvolved(events, line):
             continue  # losing case
         if dev.get(l) != v:
             bad.append((l, o))
+    bestpre, winpre = _choice_state(pre["intended"], leaves)
+    switched = lambda l: leaves[l]["choice"] in winpre and winpre[leaves[l]["choice"]][1] != win[leaves[l]["choice"]][1]
+    return bad, owners, involved, switched, leaves, best, dev
+
+
+def _choice_inherited(events, line, l):
+    """the divergence on choice member l after the event at `line` is the unchanged left-over of an earlier step of
+    the same behaviour at which the winning case switched to l's case by an uninvolved intent (the known finding):
+    since then neither l's ruling entry nor the device's value for l changed and no transaction involved l"""
+    cur = _choice_divergence(events, line)
+    j = line - 1
+    while j >= 1 and events[j - 1]["b"] == events[line - 1]["b"]:
+        ej = events[j - 1]
+        bj, _ = _choice_state(ej["post"]["intended"], cur[4])
+        if bj.get(l) != cur[5].get(l) or fun(ej["post"]["device"]).get(l) != cur[6].get(l):
+            return False
+        d = _choice_divergence(events, j)
+        if d is not None:
+            if l in d[2] or any(o in d[1] for (l2, o) in d[0] if l2 == l):
+                return False
+            if any(l2 == l for (l2, o) in d[0]) and d[3](l):
+                return True
+        j -= 1
+    return False
+
+
+def w_choice_winner_uninvolved(events, line):
+    """C08.WinningCaseApplied / C01.Converged fail only on choice members whose case becomes the winning one
+    because the former winner left, while the winning contribution belongs to an intent that is not part of the
+    transaction and whose paths the transaction does not touch (its entries are never loaded into the tree) -
+    at the transaction at which the winning case changes, or afterwards for as long as the member stays
+    untouched (same ruling entry, same device value, no transaction involving it)."""
+    d = _choice_divergence(events, line)
+    if d is None:
+        return False
+    bad, owners, involved, switched, leaves = d[0], d[1], d[2], d[3], d[4]
     if not bad:
         return False
-    # ... and only where the winning case CHANGED with this transaction (the former winner left or was moved down)
-    bestpre = {}
-    for o, p, l, v in pre["intended"]:
-        if l not in bestpre or p < bestpre[l][1]:
-            bestpre[l] = (o, p, v)
-    winpre = {}
-    for l, (o, p, v) in bestpre.items():
-        ch = leaves.get(l, {}).get("choice")
-        if ch and (ch not in winpre or p < winpre[ch][0]):
-            winpre[ch] = (p, leaves[l]["case"])
-    switched = lambda l: leaves[l]["choice"] in winpre and winpre[leaves[l]["choice"]][1] != win[leaves[l]["choice"]][1]
-    return all(leaves.get(l, {}).get("choice") and o not in owners and l not in involved and switched(l) for l, o in bad)
+    return all(leaves.get(l, {}).get("choice") and o not in owners and l not in involved
+               and (switched(l) or _choice_inherited(events, line, l)) for l, o in bad)
 
 
 def w_xml_leaflist_replace(events, line):
@@ -203,7 +233,49 @@ def w_xml_leaflist_replace(events, line):
     return ok
 
 
+def w_stale_presence_mandatory(events, line):
+    """a TransactionSet refused ONLY with 'mandatory child .. does not exist, path: <presence container>' where the
+    presence container is carried by nobody: no intent of the store or of the request defines it, it is on the
+    device only as the left-over of an intent that gave it up while a child of another intent remained (so it was
+    defined by an intent earlier in the behaviour). For the C04 probe that follows: the probe accepted."""
+    import re
+    e = events[line - 1]
+    if e["ev"] == "probe":
+        j = line - 1
+        while j >= 1 and events[j - 1]["b"] == e["b"] and events[j - 1]["ev"] != "txset":
+            j -= 1
+        return j >= 1 and events[j - 1]["b"] == e["b"] and e["ret"] == "ok" and w_stale_presence_mandatory(events, j)
+    if e["ev"] != "txset" or e["ret"] != "invalid":
+        return False
+    pre = pre_state(events, line)
+    if pre is None:
+        return False
+    pres = {"/".join(x[0] for x in l["elems"]): l["id"] for l in _uni().values()
+            if l["kind"] == "presence" and not any(x[1] for x in l["elems"])}
+    msgs = [m.strip() for m in e.get("errmsg", "").split(" | ") if m.strip()]
+    if not msgs:
+        return False
+    managed = {x[2] for x in pre["intended"]} | {q[0] for i in e["intents"] for q in i["upd"]}
+    before = fun(pre["device"])
+    ever = set()
+    j = line - 1
+    while j >= 1 and events[j - 1]["b"] == e["b"]:
+        x = events[j - 1]
+        if x["ev"] == "txset":
+            ever |= {q[0] for i in x["intents"] for q in i["upd"]}
+        j -= 1
+    for m in msgs:
+        mm = re.search(r"error mandatory child (\S+) does not exist, path: (\S+)$", m)
+        if not mm or mm.group(2) not in pres:
+            return False
+        l = pres[mm.group(2)]
+        if l in managed or l not in before or l not in ever:
+            return False
+    return True
+
+
 WITNESS = {
+    "stale_presence_mandatory": w_stale_presence_mandatory,
     "xml_leaflist_replace": w_xml_leaflist_replace,
     "choice_winner_uninvolved": w_choice_winner_uninvolved,
     "silent_read_failure": w_silent_read_failure,
